@@ -250,6 +250,35 @@ func (c *c11case) laws(a, b val.Value) {
 				c.fail("law", in, fmt.Sprintf("int %d does not equal the float of the same value", a.I))
 			}
 		}
+		// a shift by m+n is the shift by m followed by the shift by n: ties the counts above 63 (which the
+		// README's one word "bitshift" leaves to the law) to the counts 0..63 the model specifies
+		if a.K == val.Int && b.K == val.Int && b.I >= 0 && b.I <= 63 {
+			for _, op := range []string{"<<", ">>"} {
+				if op == ">>" && a.I < 0 {
+					continue
+				}
+				for _, n := range []int64{1, 63, 64 - b.I} {
+					if n < 0 || n > 63 || b.I+n <= 63 {
+						continue
+					}
+					s1, e1 := calcBinary(op, ca, cb)
+					if e1 != nil {
+						continue
+					}
+					two, e2 := calcBinary(op, s1, value.NewInt(int(n)))
+					one, e3 := calcBinary(op, ca, value.NewInt(int(b.I+n)))
+					if e2 != nil || e3 != nil {
+						continue // an error for an oversized count is not excluded by the README
+					}
+					x, okx := two.ToInt()
+					y, oky := one.ToInt()
+					if !okx || !oky || x != y {
+						c.fail("law", in, fmt.Sprintf("(a %s %d) %s %d = %v but a %s %d = %v", op, b.I, op, n, two, op, b.I+n, one))
+					}
+					c.res.Add("shift_composition_laws", 1)
+				}
+			}
+		}
 		// #(a+b) == #a + #b for arrays and strings
 		if (a.K == val.Arr && b.K == val.Arr) || (a.K == val.Str && b.K == val.Str) {
 			s, err := calcBinary("+", ca, cb)
